@@ -308,6 +308,26 @@ func runNodesResp(o *Out, r *rand.Rand, thorough bool, _ []string) {
 						port = []int{0, 1, 80, 1023, 1024, 1025}[r.Intn(6)]
 					}
 					n2 = signRecPad(keyFromSeed(r), ip, port, 1, 0)
+					if r.Intn(8) == 0 {
+						// a dual-stack record: an IPv4 and an IPv6 endpoint with ports of their own, one of them privileged. What
+						// counts is the port of the endpoint the record is reached at (Node.UDP()), reported below as usual
+						ip6 := net.ParseIP([]string{"2001:4860:4860::8888", "fd00::1234", "2606:4700::1111"}[r.Intn(3)])
+						p4, p6 := 1025+r.Intn(30000), []int{0, 80, 443, 1024}[r.Intn(4)]
+						if r.Intn(2) == 0 {
+							p4, p6 = p6, p4
+						}
+						var rec enr.Record
+						rec.Set(enr.IPv4(ip.To4()))
+						rec.Set(enr.UDP(uint16(p4)))
+						rec.Set(enr.IPv6(ip6))
+						rec.Set(enr.UDP6(uint16(p6)))
+						rec.SetSeq(1)
+						if enode.SignV4(&rec, keyFromSeed(r)) == nil {
+							if nn, err := enode.New(enode.ValidSchemes, &rec); err == nil {
+								n2 = nn
+							}
+						}
+					}
 				}
 				b, _ := rlp.EncodeToBytes(n2.Record())
 				switch r.Intn(12) {
